@@ -224,3 +224,7 @@ fn hash_str_as_yaml_string<H: Hasher>(key: &str, mut hasher: H) -> u64 {
     key.hash(&mut hasher);
     hasher.finish()
 }
+
+#[cfg(kani)]
+#[path = "/verif/kani/direct/yaml_owned_harness.rs"]
+pub(crate) mod verif_harness;
